@@ -55,6 +55,12 @@ def run_family(R, tier, rng, ops):
         add("nonzero", "nonzero " + show(Rw), lambda: L(np.nonzero(mk())), rows=Rw)
         M = [[rng.random() < .5 for _ in r] for r in Rw]
         add("subset", "subset %s %s" % (show(Rw), show(M)), lambda: L(mk().subset(RaggedArray(M, dtype=bool))), rows=Rw)
+        Y = [[rng.randint(-3, 3) for _ in r] for r in Rw]
+        add("where", "where %s %s %s" % (show(Rw), show(M), show(Y)), lambda: L(np.where(RaggedArray(M, dtype=bool), mk(), RaggedArray(Y, dtype=int))), rows=Rw)
+        add("where", "where_s %s %s 9" % (show(Rw), show(M)), lambda: L(np.where(RaggedArray(M, dtype=bool), mk(), 9)), rows=Rw)
+        add("like", "like %s 0" % show(Rw), lambda: L(np.zeros_like(mk())), rows=Rw); add("like", "like %s 1" % show(Rw), lambda: L(np.ones_like(mk())), rows=Rw)
+        add("concat1", "concat1 [%s %s]" % (show(Rw), show(Y)), lambda: L(np.concatenate([mk(), RaggedArray(Y, dtype=int)], axis=-1)), rows=Rw)
+        add("concat1", "concat1 [%s %s %s]" % (show(Rw), show(Y), show(Rw[:-1] if Rw else [])), lambda: L(np.concatenate([mk(), RaggedArray(Y, dtype=int), RaggedArray(Rw[:-1], dtype=int)], axis=1)), rows=Rw)
         if n:
             st = [rng.randint(0, len(r)) for r in Rw]
             en = [rng.choice([rng.randint(s, len(r)), -rng.randint(1, max(1, len(r)))]) if len(r) else s for s, r in zip(st, Rw)]
